@@ -181,10 +181,10 @@ package client
 //@   at Store.0 before assert [C17] held_for_retransmission: istype(clRtOf(arg(2)).Data, *pkts1.Publish) && wfFromClient(clRtOf(arg(2)).Data) &&
 //@      clRtOf(arg(2)).State == box(transactionState, ite(qos == 1, 1, 2))
 // the first transmission: DUP clear, the caller's QoS / topic / retain / payload, the message ID just drawn
-//@   at send.0 before assert [C17] first_transmission_qos0: istype(arg(1), *pkts1.Publish) && !arg(1).(*pkts1.Publish).DUPProperty.dup &&
+//@   at send.0 before assert [C17,C32] first_transmission_qos0: istype(arg(1), *pkts1.Publish) && !arg(1).(*pkts1.Publish).DUPProperty.dup &&
 //@      arg(1).(*pkts1.Publish).QOS == qos && arg(1).(*pkts1.Publish).TopicIDType == topicIDType && arg(1).(*pkts1.Publish).TopicID == topicID &&
 //@      arg(1).(*pkts1.Publish).Retain == retain && sameSlice(arg(1).(*pkts1.Publish).Data, payload)
-//@   at send.1 before assert [C17] first_transmission: istype(arg(1), *pkts1.Publish) && !arg(1).(*pkts1.Publish).DUPProperty.dup &&
+//@   at send.1 before assert [C17,C32] first_transmission: istype(arg(1), *pkts1.Publish) && !arg(1).(*pkts1.Publish).DUPProperty.dup &&
 //@      arg(1).(*pkts1.Publish).QOS == qos && arg(1).(*pkts1.Publish).TopicIDType == topicIDType && arg(1).(*pkts1.Publish).TopicID == topicID &&
 //@      arg(1).(*pkts1.Publish).Retain == retain && sameSlice(arg(1).(*pkts1.Publish).Data, payload) && arg(1) == clRtOf(tx).Data
 //@   ensures [C25] keeps_lite: cLite(c)
@@ -208,7 +208,7 @@ package client
 //@   at Store.0 before let tx = arg(2)
 //@   at Store.0 before check [C06] no_gateway_exchange_replaced: !(arg(1) in c.transactions.bypktID) || !(istype(c.transactions.bypktID[arg(1)], *brokerPublishQOS2Transaction) && !finished(c.transactions.bypktID[arg(1)].(*brokerPublishQOS2Transaction).TransactionBase))
 //@   at Store.0 before assert [C25] new_entry_wf: clEntryWF(c, arg(2)) && clOwns(arg(2))
-//@   at send.0 before assert [C17] first_transmission: istype(arg(1), *pkts1.Subscribe) && !arg(1).(*pkts1.Subscribe).DUPProperty.dup &&
+//@   at send.0 before assert [C17,C32] first_transmission: istype(arg(1), *pkts1.Subscribe) && !arg(1).(*pkts1.Subscribe).DUPProperty.dup &&
 //@      arg(1).(*pkts1.Subscribe).QOS == qos && arg(1).(*pkts1.Subscribe).TopicIDType == topicIDType && arg(1).(*pkts1.Subscribe).TopicID == topicID &&
 //@      arg(1).(*pkts1.Subscribe).TopicName == topicName && arg(1) == clRtOf(tx).Data
 //@   ensures [C25] keeps_lite: cLite(c)
@@ -298,6 +298,7 @@ package client
 //@   at StoreByType.0 before let tx = arg(2)
 //@   rely [C25] config_immutable: c.cfg == old(c.cfg) && c.cfg.User == old(c.cfg.User)
 //@   rely [C23] connect_packet_immutable: wfFromClient(cpkt)
+//@   rely [C32] connect_packet_keeps_the_client_id: strBytesEq(c.cfg.ClientID, cpkt.(*pkts1.Connect).ClientID)
 //@   rely [C23] auth_packet_immutable: wfFromClient(apkt)
 //@   at NewConnect.0 after let cpkt = box(*pkts1.Connect, ret)
 //@   at NewAuthPlain.0 after let apkt = box(*pkts1.Auth, ret)
@@ -305,6 +306,7 @@ package client
 //@   at StoreByType.0 before assert [C25] new_entry_wf: clTypedWF(c, arg(2))
 //@   at send.0 before let n0 = c.tryN
 //@   at send.0 before assert [C31] connect_first: istype(arg(1), *pkts1.Connect)
+//@   at send.0 before assert [C32] connects_with_its_client_id: strBytesEq(c.cfg.ClientID, arg(1).(*pkts1.Connect).ClientID)
 //@   at send.1 before assert [C31] auth_right_after_connect: c.tryN == n0 + 1 && istype(c.try[n0], *pkts1.Connect) && istype(arg(1), *pkts1.Auth)
 //@   at send.1 before assert [C31] auth_only_with_user: len(c.cfg.User) != 0
 //@   at Done.0 before assert [C31] round_with_user: len(c.cfg.User) != 0 ==> c.tryN == n0 + 2 && istype(c.try[n0], *pkts1.Connect) && istype(c.try[n0 + 1], *pkts1.Auth)
@@ -312,8 +314,40 @@ package client
 //@   loop 0 invariant [C25] inv: apiInv(c)
 //@   loop 0 invariant [C31] config_immutable: c.cfg == old(c.cfg) && c.cfg.User == old(c.cfg.User)
 //@   loop 0 invariant [C23] connect_packet: wfFromClient(cpkt) && istype(cpkt, *pkts1.Connect)
+//@   loop 0 invariant [C32] connect_packet_id: strBytesEq(c.cfg.ClientID, cpkt.(*pkts1.Connect).ClientID)
 //@   loop 0 invariant [C23] auth_packet: wfFromClient(apkt) && istype(apkt, *pkts1.Auth)
 //@   ensures [C25] keeps_lite: cLite(c)
 //@   ensures [C25] keeps_handlers: handlersWF(c.messageHandlers)
 //@   ensures [C25] keeps_entries: clEntries(c)
 //@   ensures [C25] keeps_typed: clTyped(c)
+
+// ---- C32: what the public calls hand to publish / subscribe ----
+// A 2-octet topic travels as its two octets (short ID), a predefined topic as the ID the caller gave.
+//@ func (*Client).Publish
+//@   nopanic [C25]
+//@   requires [C25] inv: apiInv(c)
+//@   requires [C17] ghost_counter_bound: 0 <= c.tryN && c.tryN < 0x1000000000000
+//@   requires [C23] fits: len(payload) <= 8183
+//@   guarded [C29] registeredTopicsLock: registeredTopics
+//@   assigns *
+//@   at publish.0 before assert [C32] short_topic_as_its_two_octets: len(topic) == 2 ==> arg(1) == 2 && arg(2) == (uint16(topic[0]) << 8) | uint16(topic[1])
+//@   at publish.0 before assert [C32] longer_topic_by_registered_id: len(topic) != 2 ==> arg(1) == 0 && (topic in c.registeredTopics) && arg(2) == c.registeredTopics[topic]
+//@ func (*Client).PublishPredefined
+//@   nopanic [C25]
+//@   requires [C25] inv: apiInv(c)
+//@   requires [C17] ghost_counter_bound: 0 <= c.tryN && c.tryN < 0x1000000000000
+//@   requires [C23] fits: len(payload) <= 8183
+//@   assigns *
+//@   at publish.0 before assert [C32] predefined_id_as_given: arg(1) == 1 && arg(2) == topicID
+//@ func (*Client).Subscribe
+//@   nopanic [C25]
+//@   requires [C25] inv: apiInv(c)
+//@   requires [C23] fits: len(topic) <= 8183
+//@   assigns *
+//@   at subscribe.0 before assert [C32] short_topic_as_its_two_octets: arg(2) == 2 && arg(3) == (uint16(topic[0]) << 8) | uint16(topic[1])
+//@   at subscribe.1 before assert [C32] longer_topic_by_name: arg(1) == topic && arg(2) == 0
+//@ func (*Client).SubscribePredefined
+//@   nopanic [C25]
+//@   requires [C25] inv: apiInv(c)
+//@   assigns *
+//@   at subscribe.0 before assert [C32] predefined_id_as_given: arg(2) == 1 && arg(3) == topicID
